@@ -99,6 +99,11 @@ class Rendered(object):
                     if pbg:
                         extra = [("b%d" % (k + 1), "%d" % (k + 1)) for k in range(len(f.get("bg") or []))] + \
                                 [("r%d" % (k + 1), "%d" % (k + 1)) for k in range(len(rbg or []))]
+                    if self.prog.get("hdronly"):
+                        # prog["hdronly"]: every outline carries one more Examples table that has a heading row only
+                        emit("")
+                        emit(ind + "  Examples: none yet")
+                        emit(ind + "    | " + " | ".join(["c%d" % (k + 1) for k in range(nst)] + [x[0] for x in extra]) + " |")
                     for b in it["blocks"]:
                         emit("")
                         tagline(b["tags"], ind + "  ")
